@@ -65,6 +65,9 @@ var externalReadOnly = map[string]string{
 	"net.ParseIP":                               "parses a string",
 	"(net.IP).To4":                              "returns a sub-slice of the receiver, writes nothing",
 	"sort.Slice":                                "sorts the slice passed (an element write, recorded as elem effect by the caller rule)",
+	"encoding/binary.Write":                     "serialises data into the writer; data is only read",
+	"(*bytes.Buffer).Bytes":                     "returns the buffer's contents",
+	"(*bytes.Buffer).Write":                     "copies p into the buffer",
 	"iface:hash.Hash.Write":                     "hash.Hash.Write reads p (io.Writer contract: must not modify the slice)",
 	"iface:hash.Hash.Sum":                       "appends to its argument; recorded as append",
 	"iface:hash.Hash.Reset":                     "resets the hash state",
@@ -148,6 +151,28 @@ func addrEffect(a ssa.Value) string {
 	return "deref:?"
 }
 
+// freshRoot reports whether the memory addressed by a belongs to an object allocated by the
+// enclosing function itself (new/make/composite literal/local array).
+func freshRoot(a ssa.Value) bool {
+	for i := 0; i < 16; i++ {
+		switch x := a.(type) {
+		case *ssa.Alloc, *ssa.MakeSlice, *ssa.MakeMap:
+			return true
+		case *ssa.FieldAddr:
+			a = x.X
+		case *ssa.IndexAddr:
+			a = x.X
+		case *ssa.Slice:
+			a = x.X
+		case *ssa.ChangeType:
+			a = x.X
+		default:
+			return false
+		}
+	}
+	return false
+}
+
 func typeKey2(g *ssa.Global) string {
 	path := g.Pkg.Pkg.Path()
 	path = strings.TrimPrefix(strings.TrimPrefix(path, ModulePath), "/")
@@ -184,16 +209,26 @@ func (c *Ctx) effects() map[*ssa.Function]*funcEffects {
 				switch x := ins.(type) {
 				case *ssa.Store:
 					if k := addrEffect(x.Addr); k != "" {
+						if freshRoot(x.Addr) {
+							k = "fresh:" + k
+						}
 						fe.direct.add(k)
 					}
 				case *ssa.MapUpdate:
-					fe.direct.add("map:" + typeKey(x.Map.Type()))
+					if freshRoot(x.Map) {
+						fe.direct.add("fresh:map:" + typeKey(x.Map.Type()))
+					} else {
+						fe.direct.add("map:" + typeKey(x.Map.Type()))
+					}
 				case ssa.CallInstruction:
 					cm := x.Common()
 					if bi, ok := cm.Value.(*ssa.Builtin); ok {
 						switch bi.Name() {
 						case "copy":
 							if k := sliceElemKey(cm.Args[0].Type()); k != "" {
+								if freshRoot(cm.Args[0]) {
+									k = "fresh:" + k
+								}
 								fe.direct.add(k)
 							}
 						case "delete":
@@ -208,6 +243,9 @@ func (c *Ctx) effects() map[*ssa.Function]*funcEffects {
 							for _, i := range idxs {
 								if i < len(cm.Args) {
 									if k := sliceElemKey(cm.Args[i].Type()); k != "" {
+										if freshRoot(cm.Args[i]) {
+											k = "fresh:" + k
+										}
 										fe.direct.add(k)
 									}
 								}
@@ -220,6 +258,9 @@ func (c *Ctx) effects() map[*ssa.Function]*funcEffects {
 						// unknown external callee: assume it writes through every pointer-like argument
 						for _, a := range cm.Args {
 							if k := sliceElemKey(a.Type()); k != "" {
+								if freshRoot(a) {
+									k = "fresh:" + k
+								}
 								fe.direct.add(k)
 							}
 							if fa, ok := a.(*ssa.FieldAddr); ok {
